@@ -162,6 +162,27 @@ func (r *Run) write(dir string) error {
 	for _, ch := range chunks {
 		total += len(ch.text)
 	}
+	// the model is evaluated on at most a budget of term text (every case still went through
+	// the direct oracle): beyond it, chunks are taken at a regular stride
+	budget := 60 << 20
+	if r.Thorough() {
+		budget = 250 << 20
+	}
+	r.Extra["model_term_bytes_generated"] = total
+	if total > budget {
+		stride := total/budget + 1
+		var kept []chunkT
+		keptBytes := 0
+		for i, ch := range chunks {
+			if i%stride == 0 {
+				kept = append(kept, ch)
+				keptBytes += len(ch.text)
+			}
+		}
+		r.Extra["model_evaluated_chunks"] = fmt.Sprintf("%d of %d (every %d-th chunk of at most %d cases)", len(kept), len(chunks), stride, chunk)
+		chunks, total = kept, keptBytes
+	}
+	r.Extra["model_term_bytes_evaluated"] = total
 	nshards := 16
 	if n := total/1500000 + 1; n > nshards {
 		nshards = min(n, 64)
